@@ -472,7 +472,8 @@ def run(ctx: Ctx):
 
     # the slot of the first booking is known also when the task completes in that very slot: the walk loop is left (scheduleSlot()
     # returns False) before its body can record it, so a recording after the loop is needed
-    walk = [w for w in own_nodes(ts_sched) if isinstance(w, ast.While) and "scheduleSlot" in norm(w.test)]
+    from .common import slot_walks
+    walk = slot_walks(ts_sched)
     if len(walk) != 1:
         raise AnchorMissing("TaskScenario.schedule: slot walk not found")
     in_loop = [n for n in ast.walk(walk[0]) if isinstance(n, ast.Assign) and norm(n.targets[0]) == "first_booked_slot"]
@@ -482,6 +483,17 @@ def run(ctx: Ctx):
     guarded = [n for n in after if any("first_booked_slot is None" in norm(i.test) and "doneEffort" in norm(i.test) and b == "T"
                                        for (i, b) in _ei(n, ts_sched.node))]
     ok = bool(in_loop) and bool(guarded)
+    if not ok and in_loop and isinstance(walk[0].test, ast.Constant):
+        # `while True:` form: the recording runs after every call of scheduleSlot(), the last one included, when it sits between
+        # the call and the `if not <answer>: break` at the top level of the body, under the same "something was booked" test
+        body = walk[0].body
+        call_i = next((i for i, st in enumerate(body) if isinstance(st, (ast.Assign, ast.AnnAssign)) and "scheduleSlot" in norm(st.value)), None)
+        brk_i = next((i for i, st in enumerate(body) if isinstance(st, ast.If) and any(isinstance(b, ast.Break) for b in st.body)), None)
+        rec_i = [i for i, st in enumerate(body) if isinstance(st, ast.If) and "first_booked_slot is None" in norm(st.test) and "doneEffort" in norm(st.test)
+                 and any(n in in_loop for n in ast.walk(st))]
+        if call_i is not None and brk_i is not None and rec_i and all(call_i < i < brk_i for i in rec_i):
+            ok = True
+            guarded = [body[i] for i in rec_i]
     ctx.ob("R06.4", f"{ts_sched.qual}: first booked slot recorded in the loop ({len(in_loop)}) and after it ({len(guarded)})", (ts_sched, walk[0]), ok,
            "a task that completes in the slot of its first booking still ends in that slot" if ok else
            "the slot of the first booking is recorded only inside the walk loop: a backward task that completes in that very slot gets its "
